@@ -329,6 +329,26 @@ def replay(ctx, files, cats, canary_every=5000, oneshot=False, keep=3000, timeou
     return s
 
 
+def apalache(ctx, module, inv, length=0, timeout=600, negative=False):
+    """Apalache (symbolic, unbounded integers) on a small typed module; used for the slice saturation lemma."""
+    out = os.path.join(ctx.scratch, "apalache." + inv)
+    try:
+        p = subprocess.run(["apalache-mc", "check", "--init=Init", "--next=Next", "--inv=" + inv, "--length=%d" % length, "--out-dir=" + out,
+                            module + ".tla"], cwd=ctx.specdir, capture_output=True, text=True, timeout=timeout)
+    except subprocess.TimeoutExpired:
+        raise Machinery("apalache timeout on %s/%s" % (module, inv))
+    ok = "The outcome is: NoError" in p.stdout
+    bad = "The outcome is: Error" in p.stdout
+    if not ok and not bad:
+        raise Machinery("apalache failed on %s/%s: %s" % (module, inv, (p.stdout + p.stderr)[-800:]))
+    if negative and ok:
+        raise Machinery("apalache negative control %s/%s: no counterexample found" % (module, inv))
+    if not negative and bad:
+        raise Machinery("the SPECIFICATION violates its own lemma %s/%s (apalache)" % (module, inv))
+    ctx.tlc_runs.append({"module": "apalache:%s:%s" % (module, inv), "generated": 0, "distinct": 0, "wall_s": 0, "violated": bad})
+    ctx.log("apalache %s/%s: %s" % (module, inv, "counterexample found as required" if negative else "holds for all integers"))
+
+
 def trace_api(ctx, cats, n=600, corpus=True, timeout=1800):
     """Layer L3: record a trace of real API calls (compliance corpus + seeded random driver beyond the generators'
     bounds) and validate it with TLC against Trace_Api.tla. `cats`: which mismatch kinds count for this property."""
